@@ -31,7 +31,7 @@ LEVEL_TEXT = ('seeded exploration of backend call sequences under a controlled c
 LEVEL_NOTE = 'trusted: ModelDjango (own statement of the contract, cross-read against django.core.cache.backends.base), real Django BaseCache code runs unmodified'
 
 KEYS = ['a', 'b', 'k c', 'n']
-VALUES = [0, 1, 5, 'v', {'t': [1, 2]}, None, {'b': '00'}, {'l': [1]}, {'f': '1.5'}]
+VALUES = [0, 1, 5, 'v', {'t': [1, 2]}, None, {'b': '00'}, {'l': [1]}, {'f': '1.5'}, '', {'l': []}, {'f': '0.0'}, -1]
 TIMEOUTS = ['DEFAULT', 'DEFAULT', None, 0, -1, 1, 2.5, 100]
 
 
@@ -60,7 +60,7 @@ def gen_case(seed, tier):
         elif r < 0.52:
             op = {'op': 'delete', 'k': k, 'version': ver}
         elif r < 0.62:
-            op = {'op': rng.choice(('incr', 'decr')), 'k': rng.choice(('n', k)), 'delta': rng.choice((1, 2, 10)), 'version': ver}
+            op = {'op': rng.choice(('incr', 'decr')), 'k': rng.choice(('n', k)), 'delta': rng.choice((1, 2, 10, 1, 2, 10, 0, -3)), 'version': ver}
         elif r < 0.67:
             op = {'op': rng.choice(('has_key', 'in')), 'k': k, 'version': ver}
         elif r < 0.71:
@@ -72,13 +72,15 @@ def gen_case(seed, tier):
         elif r < 0.84:
             op = {'op': 'get_or_set', 'k': k, 'v': v, 'callable': rng.random() < 0.4, 'timeout': to, 'version': ver}
         elif r < 0.89:
-            op = {'op': rng.choice(('incr_version', 'decr_version')), 'k': k, 'delta': rng.choice((1, 1, 2)), 'version': ver}
+            op = {'op': rng.choice(('incr_version', 'decr_version')), 'k': k, 'delta': rng.choice((1, 1, 2, 1, 1, 2, 0, -1)), 'version': ver}
         elif r < 0.92:
             op = {'op': 'pop', 'k': k, 'version': ver}
             if rng.random() < 0.4:
                 op['default'] = 'dflt'
         elif r < 0.93:
             op = {'op': 'clear'}
+        elif r < 0.945:
+            op = {'op': 'close'}     # Django closes every backend at the end of each request; it stays usable
         else:
             op = {'op': 'advance', 'dt': rng.choice((0, 0.5, 1, 1, 2, 2.5, 3, 5, 100, 301))}
         if op.get('op') in ('in',):
@@ -183,6 +185,9 @@ def step(cache, m, op, now, DEFAULT):
             return got, ('ok', 'False'), existed and got in (('ok', 'True'), ('ok', 'False'))
         del m.data[fk]
         return got, ('ok', 'True'), False
+    if name == 'close':
+        got = _norm(lambda: cache.close())
+        return got, ('ok', None), True
     if name in ('incr', 'decr'):
         delta = op['delta']
         got = _norm(lambda: getattr(cache, name)(op['k'], delta, **kw))
